@@ -1,6 +1,7 @@
 SPECIFICATION Spec
 CONSTANT Threshold = 1
 CONSTANT NMsgs = 3
+CONSTANT MaxDelta = 1
 CONSTANT Fwd = {"f1","f2"}
 INVARIANT ThresholdHolds
 INVARIANT CountSane
